@@ -33,8 +33,10 @@ def snapshot(engine):
             str(engine))
 
 
-def outputs(engine):
-    return [last(ov.value) for ov in engine.output_variables]
+def outputs(engine, enabled_only=False):
+    """Output values; a disabled output variable is not processed (it keeps whatever value it had), so the
+    history-freedom oracles compare enabled outputs only."""
+    return [last(ov.value) for ov in engine.output_variables if ov.enabled or not enabled_only]
 
 
 def same(a, b):
@@ -215,14 +217,14 @@ def check_after_process(ctx, verdict, fl, eng, d, has_refs, stats):
     n = 0
     if history_sensitive(d):
         return 0
-    got = outputs(eng)
+    got = outputs(eng, True)
     # processing twice gives the same result (on a deep copy, so the sequence is not disturbed)
     twin = eng.copy()
     with np.errstate(all="ignore"):
         twin.process()
     stats["idempotence_checks"] += 1
-    if not same(outputs(twin), got):
-        verdict.add_violation("history:not-idempotent", f"processing twice changed the outputs: {got} then {outputs(twin)}", {"engine_fll": str(eng), "inputs": [last(iv.value) for iv in eng.input_variables]})
+    if not same(outputs(twin, True), got):
+        verdict.add_violation("history:not-idempotent", f"processing twice changed the outputs: {got} then {outputs(twin, True)}", {"engine_fll": str(eng), "inputs": [last(iv.value) for iv in eng.input_variables]})
         n += 1
     # a freshly built engine with the same inputs gives the same outputs: earlier steps leave no trace
     if not has_refs:
@@ -232,8 +234,8 @@ def check_after_process(ctx, verdict, fl, eng, d, has_refs, stats):
         with np.errstate(all="ignore"):
             fresh.process()
         stats["history_free_checks"] += 1
-        if not same(outputs(fresh), got):
-            verdict.add_violation("history:trace", f"outputs {got} differ from those of a freshly built engine {outputs(fresh)} for the same inputs", {"engine_fll": str(eng), "inputs": [last(iv.value) for iv in eng.input_variables]})
+        if not same(outputs(fresh, True), got):
+            verdict.add_violation("history:trace", f"outputs {got} differ from those of a freshly built engine {outputs(fresh, True)} for the same inputs", {"engine_fll": str(eng), "inputs": [last(iv.value) for iv in eng.input_variables]})
             n += 1
     return n
 
